@@ -1,6 +1,6 @@
 #!/usr/bin/env python3
 """Generates the LocalNetwork problems of the C04 history explorer (committed
-output: net2d.gkf, levfree.gkf, net2dfree.gkf)."""
+output: net2d.gkf, levfree.gkf, net2dfree.gkf, bridge2d.gkf)."""
 import sys, os
 sys.path.insert(0, os.path.join(os.path.dirname(os.path.abspath(__file__)), "..", "..", "lib"))
 from gnet import *
@@ -38,3 +38,16 @@ for st in ['A', 'B', 'C']:
     cl.append(Cluster('obs', obs, frm=st, zero=0.0))
 net.clusters = cl; fill_values(net)
 open(os.path.join(here, 'net2dfree.gkf'), 'w').write(to_gkf(net))
+# 4. bridge: P and Q are each determined from the fixed points by distances; the only observation that joins
+#    them in the design-matrix graph is the first one (a cluster of its own): switching it off splits the graph
+net = Net(**{'sigma-apr': 10, 'conf-pr': 0.95, 'tol-abs': 1000, 'sigma-act': 'aposteriori'})
+net.points = [Pt('A', 0, 0, xy='fix'), Pt('B', 200, 0, xy='fix'), Pt('C', 0, 200, xy='fix'), Pt('P', 100, 60, xy='adj'), Pt('Q', 130, 150, xy='adj')]
+k = 0
+c1 = Cluster('obs', [Obs('distance', 'P', 'Q', stdev=5, err=0.003)])
+obs = []
+for t in ['P', 'Q']:
+    for st in ['A', 'B', 'C']:
+        k += 1; obs.append(Obs('distance', st, t, stdev=5, err=noise(k) * 0.002))
+c2 = Cluster('obs', obs)
+net.clusters = [c1, c2]; fill_values(net)
+open(os.path.join(here, 'bridge2d.gkf'), 'w').write(to_gkf(net))
